@@ -15,6 +15,12 @@ CLAIMED = {
         "Machine-checked Lean 4 theorems over an executable model of MultiHash in which a hashlib object is the byte stream fed to it and hashers live in a heap: any chunking (empty chunks included) feeds the concatenation and tracks its length; the from_file loop feeds exactly the non-empty reads before the first empty one; block reads of a positive (regenerated) block size reassemble the data; from_data with any set of known names feeds hasher n exactly prefix(n,len)++data where the git-flavoured prefix is git's blob header, so sha1_git hashes git's blob object; construction fails exactly for an unknown name or a git name without length; after copy(), for any interleaving of updates on original and copy, each continues from the common prefix with its own updates only. The harness hashes the model's streams with hashlib and compares with every route of the implementation (library, model and on-disk constructors, CLI) and with git hash-object.",
         NOTE + " hashlib's concatenativity and copy() independence are the model's contract (trusted); digests are uninterpreted.",
     ),
+    "C18": (
+        "§6 C18",
+        "Lean 4 exhaustive kernel case analysis of the identify decision table (1 680 configurations: no crash, designated object, usage errors iff documented, verify exit codes) + exhaustive correspondence through click's CliRunner against independently computed SWHIDs",
+        "Machine-checked Lean 4 theorems over a total model of the decision logic of `swh identify` on the finite configuration space (argument kind x --type x dereference x filename x recursive x verify x exclude), closed by exhaustive case analysis (a proof for a finite table): on every in-scope configuration the command never crashes, designates the link's target iff dereferencing was requested, prints one line per node iff recursive on a directory, shows names iff requested, raises a usage error exactly for the documented unsupported combinations, and verification exits 0 iff the SWHIDs are equal. The CLI option table is regenerated from the live click command. Every in-scope configuration is run through CliRunner on generated fixtures (non-UTF-8 names, nested/hidden directories, a real git repository, exclusion patterns incl. '.*') and compared with SWHIDs computed independently (hashlib, git's tree rules, physically pruned copies).",
+        NOTE + " click parsing, os.path and the library calls are below the model (partial in that sense).",
+    ),
     "C19": (
         "§6 C19",
         "Lean 4 proof of the repair algorithm as coded (totality via a pigeonhole fresh-name argument, uniqueness, preservation, winner, id of the original manifest, check passes) + model/implementation correspondence + direct property oracle",
